@@ -68,7 +68,7 @@ impl Report {
         *self.counters.entry(k.to_string()).or_insert(0) += n;
     }
     pub fn violate(&mut self, v: Violation) {
-        if self.violations.len() < 4 * MAX_VIOLATIONS {
+        if self.violations.len() < 2000 {
             self.violations.push(v);
         }
     }
@@ -88,7 +88,7 @@ impl Report {
                 kept.push(v.clone());
             }
         }
-        kept.truncate(64);
+        kept.truncate(600);
         json!({
             "property": property,
             "config": config,
